@@ -39,7 +39,7 @@ func genCase(profile string) *rapid.Generator[Case] {
 			sets = []string{"core", "core", "mid", "listener", "query"}
 		}
 		c.Cfg.Gates = gateSets[rapid.SampledFrom(sets).Draw(t, "gates")]
-		hot := []string{"svc.s.1", "svc.s.2", "svc.t.a.1", "svc.t.a.2", "svc.r.1", "svc.m.1"}
+		hot := []string{"svc.s.1", "svc.s.2", "svc.t.a.1", "svc.t.a.2", "svc.r.1", "svc.m.1", "svc.m.w.a.x", "svc.t.a.1", "svc.m.fixed", "svc.m.q.1"}
 		genRID := rapid.OneOf(rapid.SampledFrom(hot), rapid.SampledFrom(hot), rapid.SampledFrom(allRIDs))
 		foreign := func() Op {
 			return Op{K: "foreign", Typ: rapid.SampledFrom([]string{"reset", "resetall", "token", "tokenid", "tokenreset", "event"}).Draw(t, "ftyp"), RID: rapid.SampledFrom(allRIDs[:10]).Draw(t, "rid")}
